@@ -64,7 +64,7 @@ def write_side(ctx, facts):
 
         def prec(I_, st, ty, vi=vi):
             return ('e', PRECISION, {vi: ()})
-        N.run(FMT, label=f'{FMT}[{var["name"]}]', overrides={'precision': prec}, variants=('fixed',))
+        N.run(FMT, label=f'{FMT}[{var["name"]}]', overrides={'precision@2': prec}, variants=('fixed',))
         lits = {next(iter(p)) for p in pats if p and len(p) == 1}
         key = f'{var["name"]}'
         if len(lits) != 1 or len(pats) == 0 or any(p is None or len(p) != 1 for p in pats):
